@@ -699,9 +699,15 @@ class Context:
 
         def cbrt_fn(*args):
             x = num(args)
-            if isinstance(x, float) and (math.isnan(x) or math.isinf(x)):
+            if x == 0 or (isinstance(x, float) and (math.isnan(x) or math.isinf(x))):
                 return x
-            return math.cbrt(x)
+            # The host's cbrt can be more than 1 ulp off: compute with 40 digits
+            from decimal import Decimal, localcontext
+
+            with localcontext() as ctx:
+                ctx.prec = 40
+                root = float(Decimal(abs(x)) ** (Decimal(1) / Decimal(3)))
+            return math.copysign(root, x)
 
         def log2_fn(*args):
             x = num(args)
